@@ -450,7 +450,7 @@ def absorb(t, r, run, stats):
         stats["samples"].append({"history": t["history"], "letter": t["letter"], "outcome": r["outcome"]})
 
 
-TIERS = {"quick": {"depth": 2, "cap": 3200, "scheds": "default"}, "thorough": {"depth": 3, "cap": 60000, "scheds": "rev"}}
+TIERS = {"quick": {"depth": 2, "cap": 2400, "scheds": "default"}, "thorough": {"depth": 3, "cap": 60000, "scheds": "rev"}}
 
 
 def main(tier):
